@@ -18,10 +18,12 @@ var sniffFormats = []sniffFormat{
 	spdxSniff{},
 }
 
-var state = make(map[string]sniffState, len(sniffFormats))
+// sniffStates is the scratch state of the line sniffers. It belongs to a single
+// SniffReader call, so concurrent detections do not share it.
+type sniffStates map[string]sniffState
 
 type sniffFormat interface {
-	sniff(data []byte) Format
+	sniff(data []byte, states sniffStates) Format
 }
 
 type Sniffer struct{}
@@ -102,9 +104,9 @@ func (fs *Sniffer) SniffReader(f io.ReadSeeker) (Format, error) {
 
 	var format Format
 
-	initSniffState()
+	states := newSniffStates()
 	for fileScanner.Scan() {
-		format = fs.sniff(fileScanner.Bytes())
+		format = fs.sniff(fileScanner.Bytes(), states)
 
 		if format != EmptyFormat {
 			break
@@ -119,9 +121,9 @@ func (fs *Sniffer) SniffReader(f io.ReadSeeker) (Format, error) {
 	return "", fmt.Errorf("unknown SBOM format")
 }
 
-func (fs *Sniffer) sniff(data []byte) Format {
+func (fs *Sniffer) sniff(data []byte, states sniffStates) Format {
 	for _, sniffer := range sniffFormats {
-		format := sniffer.sniff(data)
+		format := sniffer.sniff(data, states)
 		if format != EmptyFormat {
 			return format
 		}
@@ -145,7 +147,7 @@ func (st *sniffState) Format() Format {
 
 type cdxSniff struct{}
 
-func (c cdxSniff) sniff(data []byte) Format {
+func (c cdxSniff) sniff(data []byte, _ sniffStates) Format {
 	// protobom only supports CDX formats as JSON
 	//  we are parsing the JSON in SniffReader by decoding to the SpecVersionStruct
 	//   removing all the previous JSON-related string matching from this function
@@ -157,8 +159,8 @@ func (c cdxSniff) sniff(data []byte) Format {
 
 type spdxSniff struct{}
 
-func (c spdxSniff) sniff(data []byte) Format {
-	state := getSniffState(SPDXFORMAT)
+func (c spdxSniff) sniff(data []byte, states sniffStates) Format {
+	state := states.get(SPDXFORMAT)
 
 	stringValue := string(data)
 
@@ -185,23 +187,23 @@ func (c spdxSniff) sniff(data []byte) Format {
 		}
 	}
 
-	setSniffState(SPDXFORMAT, state)
+	states.set(SPDXFORMAT, state)
 	return state.Format()
 }
 
-func initSniffState() {
-	state = make(map[string]sniffState, len(sniffFormats))
+func newSniffStates() sniffStates {
+	return make(sniffStates, len(sniffFormats))
 }
 
-func getSniffState(t string) sniffState {
-	dm, ok := state[t]
+func (s sniffStates) get(t string) sniffState {
+	dm, ok := s[t]
 	if !ok {
-		state[t] = sniffState{}
-		return state[t]
+		s[t] = sniffState{}
+		return s[t]
 	}
 	return dm
 }
 
-func setSniffState(t string, snifferState sniffState) {
-	state[t] = snifferState
+func (s sniffStates) set(t string, snifferState sniffState) {
+	s[t] = snifferState
 }
